@@ -361,6 +361,43 @@ func hostileInputs(r *core.Rand, which int) []c01Item {
 		b[14], b[15] = 0xFF, 0xFF
 		items = append(items, c01Item{1 + int(gen.TWCC), b}, c01Item{0, b})
 	case 2: // SDES of many empty items / many tiny chunks
+		if r.Chance(1, 4) {
+			// one chunk of maximum-length items whose size is around 2^18 octets (where a word count
+			// held in 16 bits becomes 0), in a buffer that may go on beyond what a length field can
+			// describe: handed to the packet decoder, the chunk decoder and the datagram decoder
+			target := r.Pick(262136, 262140, 262141, 262144, 262148, 262152, 65536, 65540, 131072)
+			b := make([]byte, 0, target+600)
+			b = append(b, 0x81, 202, 0, 0, byte(r.U8()), 1, 2, 3)
+			for len(b)+257 < target+4 {
+				b = append(b, byte(1+r.Intn(8)), 255)
+				b = append(b, r.Bytes(255)...)
+			}
+			for len(b) < target+4-2 {
+				rest := target + 4 - 2 - len(b)
+				if rest > 257 {
+					rest = 257
+				}
+				if rest < 2 {
+					break
+				}
+				b = append(b, byte(1+r.Intn(8)), byte(rest-2))
+				b = append(b, r.Bytes(rest-2)...)
+			}
+			b = append(b, 0, 0) // end of the item list
+			for len(b)%4 != 0 {
+				b = append(b, 0)
+			}
+			if r.Bool() {
+				b = append(b, r.Bytes(4*r.Intn(8))...)
+			}
+			lf := len(b)/4 - 1
+			if lf > 0xFFFF {
+				lf = 0xFFFF
+			}
+			b[2], b[3] = byte(lf>>8), byte(lf)
+			items = append(items, c01Item{1 + int(gen.SDES), b}, c01Item{17 + 2, b[4:]}, c01Item{0, b})
+			break
+		}
 		n := 4 * (1 + r.Intn(16000))
 		b := make([]byte, n)
 		for i := 8; i+1 < n; i += 2 {
